@@ -112,3 +112,15 @@ func TestC18GenOne(t *testing.T) {
 	fmt.Sscan(s, &i)
 	os.WriteFile(os.Getenv("C18_OUT"), []byte(c18Generate(1, i, c18GenOff).Src), 0o644)
 }
+
+// Development aid: C18_BIG="<nstmt> <looped 0|1> <stage>" writes the big program to C18_OUT.
+func TestC18GenBig(t *testing.T) {
+	spec := os.Getenv("C18_BIG")
+	if spec == "" {
+		t.Skip()
+	}
+	n, l := 0, 0
+	st := "compute"
+	fmt.Sscan(spec, &n, &l, &st)
+	os.WriteFile(os.Getenv("C18_OUT"), []byte(c18GenerateBig(1, 0, n, l == 1, st).Src), 0o644)
+}
